@@ -53,6 +53,7 @@ type plan struct {
 	Burst int32 `json:"burst"`
 	// "exempt" / "mif": the schema first exists with that type and is changed in place to the token bucket
 	InitType string  `json:"init_type,omitempty"`
+	Global   int32   `json:"global,omitempty"` // >0: the schema also carries a global token bucket of Global times the local values (local limiter mode: the local values stay in force)
 	Phases   []phase `json:"phases"`
 }
 
@@ -82,6 +83,9 @@ func genPlan(t *rapid.T) plan {
 	p := plan{}
 	p.QPS, p.Burst = genQB(t, "init")
 	p.InitType = rapid.SampledFrom([]string{"", "", "", "exempt", "mif"}).Draw(t, "initType")
+	if rapid.IntRange(0, 3).Draw(t, "withGlobal") == 0 {
+		p.Global = int32(rapid.SampledFrom([]int{1, 2, 3, 10, 25, 100}).Draw(t, "global"))
+	}
 	n := rapid.IntRange(1, 5).Draw(t, "phases")
 	for i := 0; i < n; i++ {
 		ph := phase{}
@@ -144,11 +148,23 @@ func execute(p plan) []window {
 	defer cancel()
 	ul := flowcontrols.NewUpstreamLimiter(ctx, "c1", "", nil)
 	defer ul.Sync(proxyv1alpha1.FlowControl{})
+	// g adds the global limits of a globally limited schema to the observed token bucket; this limiter runs in local
+	// mode (no limiter server configured), where the schema's own qps and burst are the ones in force
+	g := func(fc proxyv1alpha1.FlowControl) proxyv1alpha1.FlowControl {
+		if s := &fc.Schemas[0]; p.Global > 0 && s.TokenBucket != nil {
+			s.GlobalTokenBucket = &proxyv1alpha1.TokenBucketFlowControlSchema{QPS: s.TokenBucket.QPS * p.Global, Burst: s.TokenBucket.Burst * p.Global}
+			s.Strategy = proxyv1alpha1.GlobalAllocateLimit
+			if p.Global%2 == 1 {
+				s.Strategy = proxyv1alpha1.GlobalCountLimit
+			}
+		}
+		return fc
+	}
 	if p.InitType != "" {
-		ul.Sync(schemaTyped(p.InitType, 0))
+		ul.Sync(g(schemaTyped(p.InitType, 0)))
 	}
 	start := time.Now()
-	ul.Sync(schema(p.QPS, p.Burst))
+	ul.Sync(g(schema(p.QPS, p.Burst)))
 	var out []window
 	cur := window{qps: p.QPS, burst: p.Burst}
 	var lastAfter time.Duration = -1
@@ -156,21 +172,21 @@ func execute(p plan) []window {
 	for _, ph := range p.Phases {
 		for k := 0; k < ph.UnrelatedSyncs; k++ {
 			gen++
-			ul.Sync(schemaGen(cur.qps, cur.burst, gen)) // only the other schemas change: no new window for "tb"
+			ul.Sync(g(schemaGen(cur.qps, cur.burst, gen))) // only the other schemas change: no new window for "tb"
 		}
 		if ph.ViaType != "" {
 			out = append(out, cur)
-			ul.Sync(schemaTyped(ph.ViaType, gen))
+			ul.Sync(g(schemaTyped(ph.ViaType, gen)))
 			nq, nb := cur.qps, cur.burst
 			if ph.NewQPS > 0 {
 				nq, nb = ph.NewQPS, ph.NewBurst
 			}
-			ul.Sync(schemaGen(nq, nb, gen))
+			ul.Sync(g(schemaGen(nq, nb, gen)))
 			cur = window{qps: nq, burst: nb}
 			lastAfter = -1
 		} else if ph.NewQPS > 0 && (ph.NewQPS != cur.qps || ph.NewBurst != cur.burst) {
 			out = append(out, cur)
-			ul.Sync(schemaGen(ph.NewQPS, ph.NewBurst, gen))
+			ul.Sync(g(schemaGen(ph.NewQPS, ph.NewBurst, gen)))
 			cur = window{qps: ph.NewQPS, burst: ph.NewBurst}
 			lastAfter = -1
 		}
@@ -278,7 +294,7 @@ func saveReplay(p plan, msg string) {
 }
 
 func TestPropTokenBucketBounds(t *testing.T) {
-	sub := stats.NewSub("token-bucket-plans", "rapid: (qps 1..5000, burst >= qps) and a plan of 1-5 phases (n calls from 1-8 goroutines, pause 0-40 ms, optional reconfiguration to a new (qps, burst), optional 1-3 spec updates that only change OTHER schemas of the cluster and must not start a new window, optionally the schema first exists as exempt / max-in-flight and is changed in place to the token bucket, or is changed to such a type and back between phases); executed against the real limiter with timestamps around every call; oracle: for every window [before_i, after_j] inside one configuration, #admitted calls completely inside <= burst + qps*T; after a measured idle time t the first min(burst, floor(qps*t)) sequential calls are admitted; non-trivial = the plan has >=1 pause and >=1 refused call; distinct by FNV-64 of the plan")
+	sub := stats.NewSub("token-bucket-plans", "rapid: (qps 1..5000, burst >= qps) and a plan of 1-5 phases (n calls from 1-8 goroutines, pause 0-40 ms, optional reconfiguration to a new (qps, burst), optional 1-3 spec updates that only change OTHER schemas of the cluster and must not start a new window, optionally the schema first exists as exempt / max-in-flight and is changed in place to the token bucket, or is changed to such a type and back between phases; one plan in four: the schema also carries the global token bucket of a globally limited schema (1-100 times the local values, strategy allocate or count) while the limiter runs in local mode); executed against the real limiter with timestamps around every call; oracle: for every window [before_i, after_j] inside one configuration, #admitted calls completely inside <= burst + qps*T; after a measured idle time t the first min(burst, floor(qps*t)) sequential calls are admitted; non-trivial = the plan has >=1 pause and >=1 refused call; distinct by FNV-64 of the plan")
 	stats.Check(t, stats.N(300, 1500), func(t *rapid.T) {
 		p := genPlan(t)
 		ws := execute(p)
